@@ -110,11 +110,20 @@ fn message_class(m: &str) -> &'static str {
 
 /// turn a trap record into a violation of the appropriate property
 pub fn trap_violation(claim: Prop, file: &str, line: u32, message: &str, op: &str, aborted: bool, frame: &str) -> Violation {
+    // a trap inside the very operation a property makes promises about is a violation of
+    // that property (the operation did not deliver); any other trap belongs to C07
     let (prop, class) = match (claim, op) {
-        (Prop::C11, "search") => (Prop::C11, "search.trap"),
+        (Prop::C01, "generate") => (Prop::C01, "legals.trap"),
+        (Prop::C02, "apply") => (Prop::C02, "succ.trap"),
+        (Prop::C03, "status") | (Prop::C03, "generate") => (Prop::C03, "status.trap"),
+        (Prop::C04, "hash") => (Prop::C04, "hash.trap"),
+        (Prop::C05, "print") | (Prop::C05, "parse") | (Prop::C05, "build") => (Prop::C05, "fen.trap"),
         (Prop::C06, "parse") => (Prop::C06, "parse.trap"),
         (Prop::C06, "build") => (Prop::C06, "build.trap"),
+        (Prop::C10, "iterate") | (Prop::C10, "generate") => (Prop::C10, "iter.trap"),
+        (Prop::C11, "search") => (Prop::C11, "search.trap"),
         (Prop::C15, "plugin") => (Prop::C15, "plugin.trap"),
+        (Prop::C17, "book") | (Prop::C17, "apply") => (Prop::C17, "book.trap"),
         _ => (Prop::C07, if aborted { "trap.abort" } else { "trap.panic" }),
     };
     let at = file.strip_prefix("/repo/").unwrap_or(file);
